@@ -31,6 +31,10 @@ type C18Op struct {
 type C18Scenario struct {
 	Ops  []C18Op `json:"ops"`
 	Seed uint64  `json:"seed"`
+	// UIDShape: 0 = three unrelated 16-byte UIDs; 1 = user 1's UID is user 0's
+	// followed by four more bytes, user 2's has 8 bytes (the API takes any length;
+	// only 16-byte UIDs can ever connect); 2 = user 1's UID is user 0's first 12 bytes
+	UIDShape int `json:"uid_shape,omitempty"`
 }
 
 var c18Fields = []string{"SessionsCap", "UpRate", "DownRate", "UpCredit", "DownCredit", "ExpiryTime"}
@@ -58,7 +62,7 @@ func c18Value(g *Gen, field int) int64 {
 }
 
 func genC18(g *Gen) any {
-	sc := &C18Scenario{Seed: g.Rng.Uint64()}
+	sc := &C18Scenario{Seed: g.Rng.Uint64(), UIDShape: g.Pick(0, 0, 0, 1, 2)}
 	n := g.Int(1, 40)
 	if g.Tier == "thorough" {
 		n = g.Int(1, 400)
@@ -132,6 +136,13 @@ func runC18(c *Ctx, scAny any) {
 	w := NewSrvWorld(c, SrvParams{WithDB: true})
 	defer w.Cleanup()
 	uids := [][]byte{randBytes(c.Rng, 16), randBytes(c.Rng, 16), randBytes(c.Rng, 16)}
+	switch sc.UIDShape {
+	case 1:
+		uids[1] = append(append([]byte(nil), uids[0]...), randBytes(c.Rng, 4)...)
+		uids[2] = uids[2][:8]
+	case 2:
+		uids[1] = append([]byte(nil), uids[0][:12]...)
+	}
 	model := map[int]*c18Rec{}
 	mgr := w.Mgr
 	router := usermanager.APIRouterOf(mgr)
@@ -220,6 +231,9 @@ func runC18(c *Ctx, scAny any) {
 		}
 		sort.Ints(us)
 		for _, u := range us {
+			if len(uids[u]) != 16 {
+				continue // no client can present such a UID
+			}
 			user, err := w.Sta.Panel.GetUser(uids[u])
 			if err == nil {
 				if _, _, err := user.GetSession(5, mux.SessionConfig{Obfuscator: obf, InactivityTimeout: time.Hour}); err != nil {
